@@ -95,6 +95,11 @@ def pool_len1_attr(name, c, detail):
     return any(isinstance(c[k_], list) and len(c[k_]) == 1 for k_ in keys)
 
 
+def repeat_interleave_empty(name, c, detail):
+    """Reshape([head, -1, tail], allowzero=0) on a tensor with a zero-size dim (the repo's test skips empty inputs)."""
+    return name == "repeat_interleave" and 0 in c["shape"]
+
+
 def upsample_bilinear_scales_ignored(name, c, detail):
     """aten_upsample_bilinear2d ignores scales_h/scales_w; PyTorch uses them for the source coordinates when
     align_corners=False, so the values differ whenever output_size != input_size * scale exactly."""
@@ -165,6 +170,7 @@ def int_dtype_promotion(name, c, detail):
 PREDICATES = {
     "C08-squeeze-dim-nonunit": squeeze_dim_nonunit,
     "C08-reshape-zero": reshape_zero,
+    "C08-repeat-interleave-empty": repeat_interleave_empty,
     "C08-narrow-negative-start-tensor": narrow_negative_start_tensor,
     "C08-upsample-bilinear-scales-ignored": upsample_bilinear_scales_ignored,
     "C08-empty-reduction": empty_reduction,
